@@ -1322,3 +1322,78 @@ theorem validate_compressed_ok_iff (cc : Codec F) (C : Coord F) (bs : Bytes) (A 
 
 end explicit2
 end PP
+
+namespace PP
+open ZCash (Coord Form Flags Selected root?)
+
+/-! ## the format, read back from the spec (flags in the top three bits, coordinates untouched) -/
+section readback
+variable {F : Type} [Neg F]
+
+theorem byte_flags_readback_aux (f : Flags) : ∀ h : UInt8, h &&& 0xe0 = 0 →
+    (ZCash.bit (h ||| f.toByte) 7 = f.c ∧ ZCash.bit (h ||| f.toByte) 6 = f.i ∧
+      ZCash.bit (h ||| f.toByte) 5 = f.s ∧ (h ||| f.toByte) &&& 0x1f = h) := by
+  obtain ⟨c, i, s⟩ := f
+  cases c <;> cases i <;> cases s <;> exact UInt8.forall_of _ (by decide +kernel)
+
+theorem byte_flags_readback (h : UInt8) (hh : h &&& 0xe0 = 0) (f : Flags) :
+    ZCash.bit (h ||| f.toByte) 7 = f.c ∧ ZCash.bit (h ||| f.toByte) 6 = f.i ∧
+      ZCash.bit (h ||| f.toByte) 5 = f.s ∧ (h ||| f.toByte) &&& 0x1f = h :=
+  byte_flags_readback_aux f h hh
+
+/-- the flags of an encoding are `c` = form, `i` = infinity, `s` = (compressed, finite, `−y < y`) -/
+theorem flags_encode (K : ZCash.Curve F) (hK : K.coord.Lawful) (form : Form) (A : Aff F) :
+    ZCash.flags (ZCash.encode K form A) =
+      ⟨form.isCompressed, A.infinity, form.isCompressed && !A.infinity && K.lt (-A.y) A.y⟩ := by
+  have hp := hK.size_pos
+  unfold ZCash.encode
+  cases hi : A.infinity
+  · simp only [Bool.false_eq_true, if_false]
+    have hxl := hK.bytes_length A.x
+    have hxt := hK.bytes_top A.x
+    cases hx : K.coord.bytes A.x with
+    | nil => rw [hx] at hxl; simp at hxl; omega
+    | cons h t =>
+      rw [hx] at hxt
+      cases form
+      · obtain ⟨h7, h6, h5, _⟩ := byte_flags_readback h hxt ⟨true, false, K.lt (-A.y) A.y⟩
+        simp [ZCash.setFlags, ZCash.flags, h7, h6, h5, Form.isCompressed]
+      · obtain ⟨h7, h6, h5, _⟩ := byte_flags_readback h hxt ⟨false, false, false⟩
+        simp [ZCash.setFlags, ZCash.flags, h7, h6, h5, Form.isCompressed]
+  · simp only [if_true]
+    unfold ZCash.identityBytes
+    obtain ⟨n, hn⟩ : ∃ n, form.length K.coord = n + 1 := by
+      cases form
+      · exact ⟨K.coord.size - 1, by show K.coord.size = _; omega⟩
+      · exact ⟨2 * K.coord.size - 1, by show 2 * K.coord.size = _; omega⟩
+    rw [hn, List.replicate_succ]
+    obtain ⟨h7, h6, h5, _⟩ := byte_flags_readback 0 (by decide) ⟨form.isCompressed, true, false⟩
+    show (⟨ZCash.bit (0 ||| Flags.toByte ⟨form.isCompressed, true, false⟩) 7,
+      ZCash.bit (0 ||| Flags.toByte ⟨form.isCompressed, true, false⟩) 6,
+      ZCash.bit (0 ||| Flags.toByte ⟨form.isCompressed, true, false⟩) 5⟩ : Flags) = _
+    rw [h7, h6, h5]; simp
+
+/-- clearing the three flag bits of a finite point's encoding gives back the big-endian coordinates -/
+theorem clearFlags_encode (K : ZCash.Curve F) (hK : K.coord.Lawful) (form : Form) (A : Aff F)
+    (hf : A.infinity = false) :
+    ZCash.clearFlags (ZCash.encode K form A) =
+      match form with
+      | .compressed => K.coord.bytes A.x
+      | .uncompressed => K.coord.bytes A.x ++ K.coord.bytes A.y := by
+  have hp := hK.size_pos
+  unfold ZCash.encode
+  simp only [hf, Bool.false_eq_true, if_false]
+  have hxl := hK.bytes_length A.x
+  have hxt := hK.bytes_top A.x
+  cases hx : K.coord.bytes A.x with
+  | nil => rw [hx] at hxl; simp at hxl; omega
+  | cons h t =>
+    rw [hx] at hxt
+    cases form
+    · obtain ⟨_, _, _, hm⟩ := byte_flags_readback h hxt ⟨true, false, K.lt (-A.y) A.y⟩
+      simp [ZCash.setFlags, ZCash.clearFlags, hm]
+    · obtain ⟨_, _, _, hm⟩ := byte_flags_readback h hxt ⟨false, false, false⟩
+      simp [ZCash.setFlags, ZCash.clearFlags, hm]
+
+end readback
+end PP
